@@ -178,6 +178,30 @@ CB.Gen.Shifts.Bits; unit option `cut='\nimpl<'`: only the text in front of the f
       `while i < BOUND` loop, whose value is BOUND) becomes `<fn>_loop<j> captured.. : Nat → state.. → state` by structural
       recursion on the counter itself: round `n + 1` runs the body with `i = n`; state / captured as in the fourth form
       (untyped accumulators `let mut count = 0;` get their width the same way).
+Eighth unit group (round 4, G13; written to lean/CB/Gen/IntSign.lean, imports CB.Gen.Chains): the SIGN layer of `Int<LIMBS>` —
+`impl Limb { select, bitxor }` (src/limb/{cmp,bit_xor}.rs; namespace CB.Gen.IntSign.Limb), `impl Uint<LIMBS> { select,
+wrapping_neg_if, bitxor }` (src/uint/{cmp,neg,bit_xor}.rs; namespace CB.Gen.IntSign.Uint; calls into the Chains unit) and
+`impl Int<LIMBS> { most_significant_word, is_negative, is_positive, abs_sign, abs, new_from_abs_sign, wrapping_neg_if, select,
+is_nonzero, eq, lt, gt, invert_msb, is_min, overflowing_add, checked_add, wrapping_add, overflowing_neg, wrapping_neg,
+checked_neg }` (src/int/{sign,neg,cmp,add}.rs, src/int.rs; namespace CB.Gen.IntSign.Int).  Subset extensions used there:
+  `Int<LIMBS>` (`Self` inside `impl Int`) is a NEWTYPE over `Uint<LIMBS>`: the same list of limbs (`List (BitVec 64)`), `x.0` is
+  the `Uint`, `Self(u)` / `Int(u)` the `Int`; methods on an `Int` value resolve to the `Int` unit, methods on a `Uint` value to the
+  Chains unit, then to the units listed under `uint_more` (also from inside an `impl Uint` unit that does not define them);
+  `ConstCtOption<T>` is the PAIR (value, is_some mask): `ConstCtOption::new(v, c)` is `(v, c)` (the value is carried even when
+  the mask is falsy, exactly like the Rust struct);
+  an `if c { .. } else { .. }` EXPRESSION (final expression of a block or operand; also `else if`): `(if c then .. else ..)`, the
+  branches may have their own `let`s but may not assign outer variables; `Self::LIMBS` / `LIMBS` compared with a literal is the
+  `Nat` proposition (`LIMBS = 0`); `Word::ZERO` / `Word::ONE`;
+  `u.to_words()` (the `[Word; LIMBS]` of a `Uint`: the same list, an element is the word itself) and `words[LIMBS - 1]` (total
+  `getD`, `Nat` index arithmetic);
+  the associated CONSTANTS `Int::{MAX, MIN, ONE, SIGN_MASK}`, `Uint::{MAX, ONE}` are fixed definitions over `LIMBS` (table
+  `CONSTS`: their defining expressions use `Uint::shr` / `from_u8`, which are not in this unit); the defining TEXT in
+  src/int.rs / src/uint.rs is compared with the expected one on every run — if it differs the constant is reported `kept_last`
+  and every function that mentions it is not re-translated (`kept_last`).
+  For `Uint::from_u128` (src/uint/from.rs, emitted in the `uint_from` unit of Encoding.lean): constant index arithmetic with `/`
+  and `Limb::BYTES` (`16 / Limb::BYTES` is `2`); a call at ANOTHER limb count through a type alias, `U64::from_u64(x)` =
+  `from_u64 1 x` (`U<bits>` = `Uint<bits / 64>`), also when the callee has `assert!`s: they are conjoined to the caller's
+  `<fn>_asserts` at that limb count (`from_u64_asserts 1 x`; the arguments must be expressions over the caller's parameters).
 """
 import os, re, sys, json
 
@@ -2232,6 +2256,336 @@ class Gen:
         return nm
 
 
+# ------------------------------------------------------------------ round 4 (G13): `Int<LIMBS>`, if-expressions, constants
+# (additive: the functions / methods above are wrapped, not edited)
+
+# associated constants as fixed definitions: (type, name) -> (file, expected defining text (whitespace-insensitive), lean body)
+CONSTS = {
+    ('Uint', 'MAX'): ('src/uint.rs', ['pub const MAX: Self = Self { limbs: [Limb::MAX; LIMBS], };'],
+                      '(List.replicate LIMBS (~~~0#64))', 'uint'),
+    ('Uint', 'ONE'): ('src/uint.rs', ['pub const ONE: Self = Self::from_u8(1);'],
+                      '((List.replicate LIMBS 0#64).set 0 1#64)', 'uint'),
+    ('Int', 'MAX'): ('src/int.rs', ['pub const MAX: Self = Self(Uint::MAX.shr(1u32));'],
+                     '((List.replicate LIMBS (~~~0#64)).set (LIMBS - 1) ((~~~0#64) >>> 1))', 'int'),
+    ('Int', 'MIN'): ('src/int.rs', ['pub const MIN: Self = Self(Uint::MAX.bitxor(&Uint::MAX.shr(1u32)));'],
+                     '((List.replicate LIMBS 0#64).set (LIMBS - 1) (1#64 <<< 63))', 'int'),
+    ('Int', 'SIGN_MASK'): ('src/int.rs', ['pub const SIGN_MASK: Self = Self::MIN;', 'pub const MIN: Self = Self(Uint::MAX.bitxor(&Uint::MAX.shr(1u32)));'],
+                           '((List.replicate LIMBS 0#64).set (LIMBS - 1) (1#64 <<< 63))', 'int'),
+    ('Int', 'ONE'): ('src/int.rs', ['pub const ONE: Self = Self(Uint::ONE);'],
+                     '((List.replicate LIMBS 0#64).set 0 1#64)', 'int'),
+}
+# constants whose source text matched on this run: (type, name) -> lean namespace
+CONST_OK = {}
+
+
+def const_text_ok(ty, name):
+    rel, expected, _, _ = CONSTS[(ty, name)]
+    try:
+        src = re.sub(r'//[^\n]*', '', open(os.path.join(REPO, rel)).read())
+    except OSError:
+        return False
+    flat = re.sub(r'\s+', '', src)
+    return all(re.sub(r'\s+', '', x) in flat for x in expected)
+
+
+def emit_consts(u, ns, parts, report):
+    """the fixed definitions of the unit's associated constants (right after the `namespace` line; `@[gen_defs]` on a line
+    of its own so that `read_last` does not take them for translated functions)"""
+    for name in u.get('consts', []):
+        key = (u['self_ty'], name)
+        _, expected, body, _ = CONSTS[key]
+        parts.append(f'/-- the constant `{u["self_ty"]}::{name}` (fixed text; the source must say `{expected[0]}`) -/\n@[gen_defs]\ndef {name} (LIMBS : Nat) : List (BitVec 64) :=\n  {body}\n')
+        if const_text_ok(*key):
+            CONST_OK[key] = ns
+            report['translated'].append(f'{ns}.{name} (constant, source text checked)')
+        else:
+            CONST_OK.pop(key, None)
+            report['kept_last'].append(dict(fn=f'{ns}.{name} (constant)', why='the defining expression in the source changed'))
+
+
+_ty_of_r3 = ty_of
+
+
+def ty_of(t, self_ty):
+    t0 = t.strip()
+    if self_ty == 'Int':
+        if t0 == 'Self' or re.match(r'Int\s*<\s*LIMBS\s*>$', t0):
+            return 'int'         # an `Int<LIMBS>`: the limbs of the inner `Uint`
+        if re.match(r'Uint\s*<\s*LIMBS\s*>$', t0):
+            return 'uint'
+        m = re.match(r'ConstCtOption\s*<\s*(.+?)\s*>$', t0)
+        if m:
+            return (ty_of(m.group(1), self_ty), 'choice')      # (value, is_some)
+    return _ty_of_r3(t, self_ty)
+
+
+_lean_ty_r3 = lean_ty
+
+
+def lean_ty(t):
+    if t in ('int', 'words'):
+        return 'List (BitVec 64)'
+    if isinstance(t, tuple):
+        return ' × '.join(lean_ty(x) for x in t)
+    return _lean_ty_r3(t)
+
+
+def _p_if_expr(self):
+    """`if cond { [lets] e } else { [lets] e }` / `else if ..` as an EXPRESSION -> ('ifexpr', cond, (stmts, e), (stmts, e))"""
+    self.eat('id', 'if')
+    save, self.nostruct = self.nostruct, True
+    cond = self.expr()
+    self.nostruct = False
+    self.eat('op', '{')
+    s1, f1 = self.block()
+    self.eat('op', '}')
+    if f1 is None or not self.at('else'):
+        raise Unsupported('if expression without a value / else')
+    self.eat()
+    if self.at('if'):
+        s2, f2 = [], _p_if_expr(self)
+    else:
+        self.eat('op', '{')
+        s2, f2 = self.block()
+        self.eat('op', '}')
+        if f2 is None:
+            raise Unsupported('else branch without a value')
+    self.nostruct = save
+    return ('ifexpr', cond, (s1, f1), (s2, f2))
+
+
+_p_if_r3, _p_block_r3, _p_primary_r3 = P.if_, P.block, P.primary
+
+
+def _p_if(self):
+    save = self.i, self.nostruct
+    try:
+        return _p_if_r3(self)
+    except Unsupported as ex:
+        if 'ends in an expression' not in str(ex):
+            raise
+    self.i, self.nostruct = save
+    return _p_if_expr(self)
+
+
+def _p_block(self):
+    stmts, fin = _p_block_r3(self)
+    if fin is None and stmts and stmts[-1][0] == 'ifexpr':
+        fin = stmts.pop()          # an `if` expression in final position
+    return stmts, fin
+
+
+def _p_primary(self):
+    if self.peek() == ('id', 'if'):
+        return _p_if_expr(self)
+    return _p_primary_r3(self)
+
+
+P.if_, P.block, P.primary = _p_if, _p_block, _p_primary
+
+_free_vars_r3 = free_vars
+
+
+def free_vars(x, acc):
+    if isinstance(x, tuple) and x and x[0] == 'ifexpr':
+        free_vars(x[1], acc)
+        for stmts, fin in x[2:]:
+            free_vars(stmts, acc); free_vars(fin, acc)
+        return acc
+    return _free_vars_r3(x, acc)
+
+
+def _same(a, b):
+    n = lambda t: 64 if t == 'choice' else t
+    return n(a) == n(b)
+
+
+_ex_r3, _lookup_r3, _is_nat_r3 = Gen.ex, Gen.lookup, Gen.is_nat
+
+
+def _gen_const(self, p):
+    """`Int::MAX`, `Uint::MAX`, `Self::MIN` .. -> (lean text, type) or None"""
+    if len(p) != 2 or not self.generic:
+        return None
+    ty = self.self_ty if p[0] == 'Self' else p[0]
+    if (ty, p[1]) not in CONSTS:
+        return None
+    if (ty, p[1]) not in CONST_OK:
+        raise Unsupported(f'constant {ty}::{p[1]} changed in the source (or its unit is not generated)')
+    return f'({CONST_OK[(ty, p[1])]}.{p[1]} {self.generic})', CONSTS[(ty, p[1])][3]
+
+
+def _gen_ex(self, e, env, want=None):
+    k = e[0]
+    if k == 'ifexpr':
+        ctext = self.cond_prop(e[1], env)
+        texts, tys = [], []
+        for stmts, fin in e[2:]:
+            if assigned_vars(stmts):
+                raise Unsupported('if expression: a branch assigns an outer variable')
+            e2, l2, saved = dict(env), [], dict(self.cenv)
+            self.run(stmts, e2, l2, set())
+            t, ty = self.ex(fin, e2, want)
+            self.cenv = saved
+            l2.append(t)
+            texts.append(join_lines('\n    ', l2))
+            tys.append(ty)
+        if not _same(tys[0], tys[1]):
+            raise Unsupported(f'if expression: branch types {tys[0]} / {tys[1]}')
+        return f'(if {ctext} then {atom(texts[0])} else {atom(texts[1])})', tys[0]
+    if k == 'path':
+        p = e[1]
+        if self.generic and (p == ['Self', self.generic] or p == [self.self_ty, self.generic]):
+            return env[self.generic][0], 'nat'
+        if p[0] == 'Word' and len(p) == 2 and p[1] in ('ZERO', 'ONE'):
+            return {'ZERO': '0#64', 'ONE': '1#64'}[p[1]], 64
+        c = _gen_const(self, p)
+        if c:
+            return c
+    if k == 'field' and e[2] == 0:
+        t, ty = self.ex(e[1], env)
+        if ty == 'int':
+            return t, 'uint'           # the `Uint` inside an `Int`
+    if k == 'index':
+        t, ty = self.ex(e[1], env)
+        if ty == 'words':
+            ix, tix = self.ex(e[2], env, 'nat')
+            if tix != 'nat':
+                raise Unsupported('index of type ' + str(tix))
+            return f'({atom(t)}.getD {atom(ix)} 0#64)', 64
+    if k == 'method':
+        r, tr = self.ex(e[2], env)
+        if tr == 'int':
+            return self.call(e[1], [e[2]] + e[3], env, 'int')
+        if tr == 'uint' and e[1] == 'to_words' and not e[3]:
+            return r, 'words'
+        if tr == 'uint' and e[1] in ('wrapping_add', 'wrapping_sub', 'wrapping_mul', 'wrapping_neg', 'overflowing_add',
+                                     'saturating_mul', 'leading_zeros'):
+            return self.call(e[1], [e[2]] + e[3], env, 'uint')      # the method of `Uint`, not the word operation of that name
+    if k == 'call':
+        p = e[1]
+        if (p == ['Self'] and self.self_ty == 'Int') or p == ['Int']:
+            if len(e[2]) != 1:
+                raise Unsupported('Int(..) arity')
+            t, ty = self.ex(e[2][0], env)
+            if ty != 'uint':
+                raise Unsupported('Int(non-Uint)')
+            return t, 'int'
+        if p == ['ConstCtOption', 'new'] and len(e[2]) == 2:
+            v, tv = self.ex(e[2][0], env)
+            c, tc = self.ex(e[2][1], env)
+            if not _same(tc, 'choice'):
+                raise Unsupported('ConstCtOption::new: is_some of type ' + str(tc))
+            return f'({v}, {c})', (tv, 'choice')
+        if len(p) == 2 and p[0] == 'Int' and self.self_ty != 'Int':
+            return self.call(p[1], e[2], env, 'int')
+        if len(p) == 2 and p[0] == 'Int' and self.self_ty == 'Int':
+            return self.call(p[1], e[2], env, 'self')
+    return _ex_r3(self, e, env, want)
+
+
+def _gen_lookup(self, name, where):
+    if where == 'int':
+        if self.self_ty == 'Int':
+            return (self.ns, self.sigs[name]) if name in self.sigs else (None, None)
+        c = self.ext.get('int')
+        return (c[0], c[1].get(name)) if c else (None, None)
+    ns, sig = _lookup_r3(self, name, where)
+    if sig is None:
+        # a method of `Limb` / `Uint` that the current `impl Limb` / `impl Uint` unit does not define itself: the Chains unit,
+        # then the further units (`limb_more` / `uint_more`)
+        w = {'Limb': 'limb', 'Uint': 'uint'}.get(self.self_ty) if where == 'self' else where
+        if w in ('limb', 'uint') and (where == 'self' or self.self_ty == {'limb': 'Limb', 'uint': 'Uint'}[w]):
+            for c in [self.ext.get(w)] + list(self.ext.get(w + '_more', [])):
+                if c and name in c[1] and c[0] != self.ns:
+                    return c[0], c[1][name]
+    return ns, sig
+
+
+def _gen_is_nat(self, e, env):
+    if e[0] == 'path' and self.generic and (e[1] == ['Self', self.generic] or e[1] == [self.self_ty, self.generic]):
+        return True
+    return _is_nat_r3(self, e, env)
+
+
+Gen.ex, Gen.lookup, Gen.is_nat = _gen_ex, _gen_lookup, _gen_is_nat
+
+
+# ---- `Uint::from_u128`: `16 / Limb::BYTES`, a call at ANOTHER limb count through a type alias (`U64::from_u64(..)`), whose
+#      `assert!`s join the caller's
+
+def _nat_const(e):
+    """a constant index expression: literals, `Limb::BYTES` (8), `Limb::BITS` (64), `+ - * /` -> int or None"""
+    k = e[0]
+    if k == 'lit' and e[2] in (None, 'usize'):
+        return e[1]
+    if k == 'path' and e[1] == ['Limb', 'BYTES']:
+        return 8
+    if k == 'path' and e[1] == ['Limb', 'BITS']:
+        return 64
+    if k == 'bin' and e[1] in ('+', '-', '*', '/'):
+        a, b = _nat_const(e[2]), _nat_const(e[3])
+        if a is None or b is None or (e[1] == '/' and b == 0) or (e[1] == '-' and a < b):
+            return None
+        return {'+': a + b, '-': a - b, '*': a * b, '/': a // b if b else None}[e[1]]
+    return None
+
+
+_ex_r3b, _body_r3 = Gen.ex, Gen.body
+
+
+def _gen_ex2(self, e, env, want=None):
+    k = e[0]
+    if k == 'bin' and e[1] == '/' and want == 'nat':
+        c = _nat_const(e)
+        if c is None:
+            raise Unsupported('index division')
+        return str(c), 'nat'
+    if k == 'call' and len(e[1]) == 2 and re.match(r'U\d+$', e[1][0]) and self.self_ty == 'Uint' and self.generic:
+        # `U64::from_u64(x)`: the same unit at the limb count of the alias (64-bit limbs); the callee's `assert!`s are added to
+        # the caller's `<fn>_asserts` (their arguments must be expressions over the caller's parameters)
+        bits, name = int(e[1][0][1:]), e[1][1]
+        if bits % 64 or name not in self.sigs:
+            raise Unsupported('call ' + '::'.join(e[1]))
+        ptys, rty = self.sigs[name]
+        if len(ptys) != len(e[2]):
+            raise Unsupported('arity ' + name)
+        parts = []
+        for a, pt in zip(e[2], ptys):
+            t, ty = self.ex(a, env, pt)
+            if not _same(ty, pt):
+                raise Unsupported(f'argument type {ty} for {pt} in {name}')
+            parts.append(atom(t))
+        if (self.ns, name) in ASSERTING:
+            entry = getattr(self, 'entry_env', {})
+            for v in free_vars(e[2], []):
+                if v not in entry or env.get(v) != entry[v]:
+                    raise Unsupported('call to a function with assert! whose arguments are not expressions over the parameters')
+            self.called_asserts.append(f'({self.ns}.{name}_asserts {bits // 64} ' + ' '.join(parts) + ')')
+        return f'({self.ns}.{name} {bits // 64} ' + ' '.join(parts) + ')', rty
+    return _ex_r3b(self, e, env, want)
+
+
+def _gen_body(self, body, env, rty, outs=None):
+    self.entry_env, self.called_asserts = dict(env), []
+    lines = _body_r3(self, body, env, rty, outs)
+    if self.called_asserts:
+        head = f'@[gen_defs] def {self.fname}_asserts '
+        extra = ' && '.join(dict.fromkeys(self.called_asserts))
+        for j, a in enumerate(self.aux):
+            if a.startswith(head):
+                self.aux[j] = a + ' && ' + extra
+                break
+        else:
+            binders = ''.join(f'({ln} : {lean_ty(t)}) ' for ln, t in self.entry_env.values())
+            self.aux.append(f'{head}{binders}: Bool :=\n  ' + extra)
+            ASSERTING.add((self.ns, self.fname))
+    return lines
+
+
+Gen.ex, Gen.body = _gen_ex2, _gen_body
+
+
 def impl_blocks(src, self_ty):
     """the bodies of all inherent impl blocks `impl[<..>] Ty[<..>] {` of a file, concatenated"""
     out = []
@@ -2420,6 +2774,21 @@ FILES = [
              desc='the bit-query free functions over `&[Limb]` (a slice = the list of its limbs)',
              want=['leading_zeros', 'trailing_zeros', 'trailing_ones', 'bit'], cut='\nimpl<'),
     ]),
+    # the sign layer of `Int<LIMBS>` (a newtype over `Uint<LIMBS>`: the same list of limbs) with the `Limb` / `Uint` helpers it calls
+    ('IntSign.lean', ['CB.Gen.Chains', None, 'set_option linter.unusedVariables false'], [
+        dict(key='limb_sel', rel=['src/limb/cmp.rs', 'src/limb/bit_xor.rs'], ns='CB.Gen.IntSign.Limb', self_ty='Limb',
+             desc='impl Limb: select, bitxor', want=['select', 'bitxor'], use=['prim']),
+        dict(key='uint_sel', rel=['src/uint/cmp.rs', 'src/uint/neg.rs', 'src/uint/bit_xor.rs'], ns='CB.Gen.IntSign.Uint',
+             self_ty='Uint', generic='LIMBS', desc='impl<const LIMBS: usize> Uint<LIMBS>: select, wrapping_neg_if, bitxor',
+             want=['select', 'wrapping_neg_if', 'bitxor'], limb_more=['limb_sel'], consts=['MAX', 'ONE']),
+        dict(key='int', rel=['src/int/sign.rs', 'src/int/neg.rs', 'src/int/cmp.rs', 'src/int/add.rs', 'src/int.rs'],
+             ns='CB.Gen.IntSign.Int', self_ty='Int', generic='LIMBS', private=True,
+             desc='impl<const LIMBS: usize> Int<LIMBS>: sign, abs / sign decomposition, negation, comparison, checked addition',
+             want=['most_significant_word', 'is_negative', 'is_positive', 'abs_sign', 'abs', 'new_from_abs_sign',
+                   'wrapping_neg_if', 'select', 'is_nonzero', 'eq', 'lt', 'gt', 'invert_msb', 'is_min',
+                   'overflowing_add', 'checked_add', 'wrapping_add', 'overflowing_neg', 'wrapping_neg', 'checked_neg'],
+             uint_more=['uint_sel'], limb_more=['limb_sel'], consts=['MAX', 'MIN', 'SIGN_MASK', 'ONE']),
+    ]),
 ]
 
 AUX = re.compile(r'\w+_loop\d+$')
@@ -2482,6 +2851,8 @@ def main():
                 if stext:
                     STRUCTS[sname] = (f'{ns}.{sname}', fields)
                     parts.append(stext); parts.append('')
+            if u.get('consts'):
+                emit_consts(u, ns, parts, report)
             ext = dict(choice=reg.get('choice'), limb=reg.get('limb'), uint=reg.get('uint'),
                        use=[reg[k] for k in u.get('use', []) if k in reg],
                        limb_more=[reg[k] for k in u.get('limb_more', []) if k in reg])
@@ -2490,6 +2861,7 @@ def main():
             OPTS.clear()
             OPTS.update({k: u[k] for k in ('skip_asserts', 'free_generic', 'slices', 'nat_loops') if u.get(k)})
             ext['uint_more'] = [reg[k] for k in u.get('uint_more', []) if k in reg]
+            ext.update(int=reg.get('int'))
             try:
                 order, out, failed, sigs = translate_file(path, ns, self_ty, u.get('want'), u.get('private', False), ext, u.get('cut'))
             except (Unsupported, OSError) as ex:
